@@ -15,7 +15,7 @@ LEVEL = "exploration"
 DESIGN_REF = "DESIGN.md §3 C20"
 RULE = (
     "Exhaustive grid: count 1..12 x 6 two-ended link classes x connectivity in {default, 0, 0.1, 0.5, 1} x "
-    "ensurelink in {True, False} x 40 (quick) / 400 (thorough) seeds of the random module; plus Hypothesis: count "
+    "ensurelink in {True, False} x 40 (quick) / 400 (thorough) seeds of the random module; plus a grid of larger counts (63-300, around multiples of 64 and 128); plus Hypothesis: count "
     "<= 80, 9 link classes (also one with renamed end parameters, one whose constructor takes the two ends only, one derived from both edge classes), connectivity any float in [0, 1], arbitrary int seed.  Oracle: the call returns (no exception); "
     "len(uni.vertices) == count; sorted(v.i) == range(count); every link of every member has exactly the requested "
     "type and both ends inside the universe; with ensurelink every member is v1 of >= 1 link; re-seeding the random "
